@@ -53,6 +53,7 @@ class Cfg:
     clones: Tuple[int, int] = (1, 8)         # probability (num, den) of making some records value-equal EntV clones
     kw_vars: Tuple[int, int] = (0, 1)        # probability that a variable is declared as T(From(d), field=const)
     const_operands: Tuple[int, int] = (1, 12)  # probability that an operand of and/or is a constant / variable-free test
+    foreign_only: Tuple[int, int] = (1, 20)  # probability that one domain holds only objects of other classes (needs noise)
     empty_dom: Tuple[int, int] = (1, 12)     # probability that a domain may come out empty (when dom[0] == 0)
     earlier_sharing: Tuple[int, int] = (0, 1)  # probability of earlier queries that share comparison objects with the query
     extra_templates: Tuple[str, ...] = ()    # additional weight for named shape templates (needs >= 2 variables)
@@ -183,7 +184,7 @@ def leaf(draw, ctx: Ctx, vars_: List[int]):
     if cfg.allow_truth:
         kinds += ["big", "atleast", "starts", "tval", "tval"]
     if cfg.allow_preds:
-        kinds += ["fpred1", "cpred1", "hastype"]
+        kinds += ["fpred1", "fpred1r", "cpred1", "hastype"]
     if cfg.allow_preds and cfg.allow_truth:
         kinds += ["heavy"]
     kinds = [x for x in kinds if x not in cfg.exclude_leaves]
@@ -240,9 +241,15 @@ def leaf(draw, ctx: Ctx, vars_: List[int]):
         return ["truth", ["attr", e, what]]
     if k == "fpred1":
         return ["fpred", "p_a_ge", [["var", x], ["const", draw(st.sampled_from(P["ints"]))]]]
+    if k == "fpred1r":
+        # the variable is not the first argument: the arguments before it are constants
+        return ["fpred", "p_n_le_a", [["const", draw(st.sampled_from(P["ints"]))], ["var", x]]]
     if k == "cpred1":
         return ["cpred", "IsBig", [["var", x]]]
-    return ["hastype", ent_term(draw, ctx, x), draw(st.sampled_from(["EntSub", "EntPlain", "Ent"]))]
+    # spellings of the same term: both keywords, both positional, variable positional and type by keyword, keywords with
+    # the type first
+    return ["hastype", ent_term(draw, ctx, x), draw(st.sampled_from(["EntSub", "EntPlain", "Ent"])),
+            draw(st.sampled_from(["kw", "pos", "pos_kw", "kw_rev"]))]
 
 
 # ----------------------------------------------------------------------------- condition trees
@@ -470,6 +477,14 @@ def query_case(draw, cfg: Cfg):
         for d in doms:
             if draw(st.booleans()):
                 d.insert(draw(st.integers(0, len(d))), base + draw(st.integers(0, 1)))
+    if cfg.noise and chance(draw, cfg.foreign_only[0], cfg.foreign_only[1]):
+        # a domain that holds no instance of its variable's type at all (only objects of other classes), while instances
+        # of the type exist elsewhere: the variable has no value
+        if not any(r.get("cls") == "Other" for r in recs):
+            recs = recs + [{"cls": "Other", "k": 90, "a": 1}, {"cls": "Foreign", "k": 91}]
+        base = next(i for i, r in enumerate(recs) if r.get("cls") == "Other")
+        d = doms[draw(st.integers(0, len(doms) - 1))]
+        d[:] = [base, base + 1][:draw(st.integers(1, 2))]
     vars_ = [{"dom": var_dom[v], "decl": draw(st.sampled_from(cfg.decls)), "type": "Ent"} for v in range(nvars)]
     for vd in vars_:
         # predicate-form declaration with a field constraint: T(From(d), field=const)
@@ -488,6 +503,9 @@ def query_case(draw, cfg: Cfg):
             "split_top": draw(st.booleans()), "quant": cfg.quant}
     if chance(draw, 1, 4):
         case["share_terms"] = True      # equal mapping terms are ONE expression object (f = x.a used several times)
+        # ... and after the query was built the same objects are mentioned once more, in expressions that are constructed
+        # but never evaluated (build.later_uses)
+        case["later_uses"] = chance(draw, 1, 3)
     # an evaluation abandoned after k results (the consumer stops, the iterator is closed) precedes the evaluations
     # that are compared: what a query returns must not depend on it (honoured by qcheck.run_query and by C01)
     case["abandon_first"] = draw(st.sampled_from([0, 0, 0, 1, 2]))
